@@ -220,6 +220,14 @@ class IndexExpander(ReuseTransformer):
         self._components.pop()
         return r
 
+    def variable(self, x):
+        """Apply to variable.
+
+        The expansion depends on the current component and index values,
+        so the result must not be cached by label; the label is dropped.
+        """
+        return self.visit(x.ufl_operands[0])
+
     def grad(self, x):
         """Apply to grad."""
         (f,) = x.ufl_operands
